@@ -26,6 +26,9 @@ P = {
  "C02": dict(level="other", tech="sibling congruence: opcode/cycle tables read from the interpreted initialisers compared entry-wise; Step of both packages abstractly interpreted per opcode x M,X,E x interrupt cell over identically named symbols with exact gated merges, and the two abstract transformers (fields, return, bus-access trace, branch trace) compared syntactically",
    text="A sufficient condition for the lock-step equivalence: if for every cell both Step functions denote the same hash-consed term for every output and the same ordered bus trace, they compute the same results on every state of the cell. It catches any one-sided change of a constant, operator, table entry, field, access order or branch. It is not a necessary condition: a behaviour-preserving restructuring of one copy that changes its term structure is reported (DESIGN.md section 6).",
    note="Hypothesis of the property: whole bus mapped. Declared asymmetries: OnPC prologue of cpu65c816.Step, debug latches Bus.EA/Bus.Write/Bus.M. Functions not reachable from Step (Reset, Init*, TriggerIRQ) are not compared.", ref="4 C02"),
+ "C07": dict(level="other", tech="step obligations of an inductive invariant, each decided by abstract interpretation: emitted length (Emitter cells) = decoded length (Step cells) per opcode and width; refusal iff width mismatch; REP/SEP tracker bits (abstract bits evaluated at each operand byte) = CPU M/X after the Step cell with that operand; mod-set of the tracker and of CPU M/X over all emittable opcodes",
+   text="The property is an invariant over all straight-line programs; its induction step is a finite set of per-instruction obligations, all discharged statically for every operand value and width state (90 methods x 16 cells, 2 x 4096 REP/SEP cells, every emittable opcode). The base case and 'no taken transfer / no PLP, RTI' are hypotheses stated by the property itself.",
+   note="Trusted: go/ssa, absint, ref/isa65816.json, P layout bit5=M bit4=X. XCE is not emittable (checked: no method emits an opcode that changes M/X other than REP/SEP/PLP/RTI).", ref="4 C07"),
 }
 reasons_pending = "no check is registered for this property at this commit (machinery not built yet); see DESIGN.md section 4 for the planned static rules"
 
